@@ -114,6 +114,17 @@ impl Dinic {
                 self.parents[v] = u;
                 let flow = min(flow, available_capacity);
                 if v == self.target {
+                    // the bottleneck carried on the stack may be stale: an earlier
+                    // augmentation in this DFS may have used up capacity on a shared
+                    // prefix of the path. Recompute it along the parent chain.
+                    let mut flow = available_capacity;
+                    let mut w = u;
+                    while self.parents[w] != w {
+                        let p = self.parents[w];
+                        let path_edge = self.residual_graph.find_edge_unchecked(p, w);
+                        flow = min(flow, self.residual_graph.data(path_edge).capacity);
+                        w = p;
+                    }
                     let duration = start.elapsed();
                     debug!(" reached target {}: {:?}", v, duration);
                     // reached a target. Unpack path in reverse order, assign flow
